@@ -238,7 +238,7 @@ func Minimise(t *testing.T, def *CheckDef, plan *Plan, class string, deadline ti
 				for fi := 0; fi < rv.NumField(); fi++ {
 					f := rv.Field(fi)
 					name := rv.Type().Field(fi).Name
-					if name == "Op" || name == "Chart" || name == "Release" {
+					if name == "Op" || name == "Chart" || name == "Release" || name == "CLI" || name == "CLIKind" {
 						continue
 					}
 					if f.IsZero() {
